@@ -9,10 +9,12 @@ pub mod deps_proofs {
         EdgeKind::Field => 5, EdgeKind::InnerType => 6, EdgeKind::InnerVar => 7, EdgeKind::Method => 8, EdgeKind::Constructor => 9, EdgeKind::Destructor => 10, EdgeKind::FunctionReturn => 11,
         EdgeKind::FunctionParameter => 12, EdgeKind::VarType => 13, EdgeKind::TypeReference => 14 } }
     fn pred(k: EdgeKind) -> bool { unsafe { MASK[kidx(k)] } }
-    fn case(tag: u8) {
+    /// `allow1`: is child 1 allowlisted (CONCRETE: a symbolic allowlist makes the iterated item, hence its enum variant, symbolic)
+    fn case(tag: u8, allow1: bool) {
         let mut ctx = mk_ctx(tag, 0);
-        // allowlisting of the children is symbolic here as well
-        ctx.allow.present[1] = kani::any(); ctx.allow.present[2] = kani::any();
+        // X itself is allowlisted (a non-allowlisted item is never iterated); allowlisting of the children is symbolic
+        ctx.allow.present[X] = true; ctx.allow.present[0] = true;
+        ctx.allow.present[1] = allow1; ctx.allow.present[2] = true;
         let m: [bool; 15] = kani::any(); unsafe { MASK = m; }
         let deps = generate_dependencies(&ctx, pred);
         let mut c = 1;
@@ -29,8 +31,8 @@ pub mod deps_proofs {
         let mut i = 0; while i < NI { assert!(!ctx.allow.present[i] || deps.contains_key(&ItemId(i)), "allowlisted item without a dependency entry"); i += 1; }
         core::mem::forget(deps); core::mem::forget(ctx);
     }
-    #[kani::proof] #[kani::unwind(10)] fn dependencies_Comp() { case(12) }
-    #[kani::proof] #[kani::unwind(10)] fn dependencies_Alias() { case(4) }
-    #[kani::proof] #[kani::unwind(10)] fn dependencies_TemplateInstantiation() { case(13) }
-    #[kani::proof] #[kani::unwind(10)] fn dependencies_Function() { case(10) }
+    #[kani::proof] #[kani::unwind(18)] fn dependencies_Comp() { case(12, true) }
+    #[kani::proof] #[kani::unwind(18)] fn dependencies_Alias() { case(4, true) }
+    #[kani::proof] #[kani::unwind(18)] fn dependencies_TemplateInstantiation() { case(13, true) }
+    #[kani::proof] #[kani::unwind(18)] fn dependencies_Function() { case(10, false) }
 }
